@@ -151,7 +151,7 @@ static size_t evil_build(Conn *c, int dir, int idx, int variant, const uint8_t *
 	/* SM4-CBC + SM3-HMAC: plaintext = data || MAC || padding with a deliberate defect */
 	const SM3_HMAC_CTX *mac_ctx = dir == DIR_C2S ? &sc->client_write_mac_ctx : &sc->server_write_mac_ctx;
 	const SM4_KEY *ek = dir == DIR_C2S ? &sc->client_write_enc_key : &sc->server_write_enc_key;
-	uint8_t data[64], pt[160], iv[16], hdr[5] = { TLS_record_application_data, rec[1], rec[2], 0, 0 };
+	uint8_t data[64], pt[320], iv[16], hdr[5] = { TLS_record_application_data, rec[1], rec[2], 0, 0 };
 	size_t dl = 20, n = 0;
 	payload_fill(dir, 0, data, dl);
 	rng_bytes(&r, iv, 16);
@@ -170,7 +170,12 @@ static size_t evil_build(Conn *c, int dir, int idx, int variant, const uint8_t *
 		memcpy(pt, data, dl); sm3_hmac_finish(&h, pt + dl); n = dl + 32;          /* 52 bytes */
 		size_t padlen = 27;                                                      /* 52 + 28 = 80 = 5 blocks */
 		if (variant % 3 == 0) memset(pt + n, 0xff, padlen + 1);                   /* length byte larger than the record */
-		else { memset(pt + n, (int)padlen, padlen + 1); pt[n] ^= 1; pt[n + 5] ^= 0x80; }   /* MAC fine, padding bytes inconsistent */
+		else {
+			/* MAC fine, padding of 12..252 bytes (legal: up to 255) with ONE byte, anywhere in it, inconsistent */
+			padlen = 11 + 16 * (size_t)rng_below(&r, 16);
+			memset(pt + n, (int)padlen, padlen + 1);
+			pt[n + rng_below(&r, (uint32_t)padlen)] ^= (uint8_t)(1u << rng_below(&r, 8));
+		}
 		n += padlen + 1;
 	}
 	memcpy(out + 5, iv, 16);
@@ -342,7 +347,7 @@ static void gen_fault_hs(Fault *f, Rng *g, const HonestOut *o)
 	int n = collect(o, 1, 0, c, 2 * MAX_REC);
 	memset(f, 0, sizeof(*f));
 	if (!n) return;
-	static const int w[] = { 0, 58, 8, 8, 6, 3, 6, 3, 5, 0, 0, 3 };    /* indexed by fault kind */
+	static const int w[F_NKINDS] = { 0, 58, 8, 8, 6, 3, 6, 3, 5, 0, 0, 3 };    /* indexed by fault kind */
 	int kind = pick_weighted(g, w, F_NKINDS);
 	Cand *t = &c[rng_below(g, (uint32_t)n)];
 	f->kind = kind; f->dir = t->dir; f->rec = t->rec;
@@ -521,7 +526,7 @@ static void gen_fault_data(Fault *f, Rng *g, const HonestOut *o, int proto)
 	int n = collect(o, 0, 1, c, 2 * MAX_REC);
 	memset(f, 0, sizeof(*f));
 	if (!n) return;
-	static const int w[] = { 0, 48, 7, 8, 6, 6, 7, 5, 4, 0, 9, 0 };
+	static const int w[F_NKINDS] = { 0, 48, 7, 8, 6, 6, 7, 5, 4, 0, 9, 0 };
 	int kind = pick_weighted(g, w, F_NKINDS);
 	Cand *t = &c[rng_below(g, (uint32_t)n)];
 	f->kind = kind; f->dir = t->dir; f->rec = t->rec;
